@@ -25,6 +25,18 @@ CLAIMED = {
              "indent have no independent statement.",
         note=TTY_NOTE + "Known finding K_word_count (C04) limits the count convention for word commands.",
         technique="Coq proof: finite table sweeps by kernel computation for arbitrary surrounding state; structural proofs over the editor monad (keeps_buf, insert spec); extracted-model differential check through a pty + documented-meaning oracle"),
+    "C05": dict(
+        text="Theorems over the model of undo.rs composed with the line buffer and the editor: the undo stack is at every moment "
+             "a valid edit script from the empty line to the current text -- preserved by every change notification (any "
+             "line-buffer operation, C03 replay) and by EVERY editor command for every configuration and state, hence through "
+             "any command sequence of a read; Undo never panics for any count; each Undo lands on a text of that script; one "
+             "Undo removes exactly one recorded change or exactly one Begin..End group; a count beyond the stack yields the "
+             "empty line; begin + any notifications + truncate(mark) restores the changeset exactly (stack and group depth), "
+             "which is what aborting a search or completion does. PARTIAL: the sub-loops themselves and the link from script "
+             "texts to texts actually displayed are decided by the correspondence and by the oracle (earlier-observed texts, "
+             "unit after word-sized edits, count 99 empties, paired scripts with/without an aborted episode).",
+        note=TTY_NOTE,
+        technique="Coq proof: invariant by induction over notifications / commands (compositional 'preserves' calculus over the editor monad); induction over the undo stack; extracted-model differential check through a pty + metamorphic oracle"),
     "C13": dict(
         text="Theorems for every validator, editor state and text: executing Enter / C-j / C-m says Submit only if the verdict on "
              "the current text is Valid, and then text and cursor are exactly those validated; a Valid verdict does submit; "
